@@ -38,9 +38,10 @@ func VerifNew(logger *log.Logger, cfg config.Config, storage db.AggSenderStorage
 }
 
 // VerifStartChecks runs what Start runs before the send loop (the status checker's initial reconciliation,
-// which returns once it succeeded or ctx is done, then the flow's own check).
-func (a *AggSender) VerifStartChecks(ctx context.Context) error {
-	a.certStatusChecker.CheckInitialStatus(ctx, a.cfg.DelayBetweenRetries.Duration, a.status)
+// which returns once it succeeded or ctx is done, then the flow's own check). retryDelay replaces
+// cfg.DelayBetweenRetries for the reconciliation loop so that the caller can observe a single pass.
+func (a *AggSender) VerifStartChecks(ctx context.Context, retryDelay time.Duration) error {
+	a.certStatusChecker.CheckInitialStatus(ctx, retryDelay, a.status)
 	if ctx.Err() != nil {
 		return ctx.Err()
 	}
